@@ -89,13 +89,13 @@ theorem bIf_reads (rec : Go.Rec) (stack : List NodeId) (n : Node) (inst : GoVal)
     bIf rec stack (readsOf n) inst anns = bIf rec stack n inst anns := rfl
 theorem bItems_reads (env : VEnv) (rec : Go.Rec) (stack : List NodeId) (n : Node) (xs : List GoVal) (anns : Anns) :
     bItems env rec stack (readsOf n) xs anns = bItems env rec stack n xs anns := rfl
-theorem bContains_reads (rec : Go.Rec) (stack : List NodeId) (n : Node) (xs : List GoVal) (anns : Anns) :
-    bContains rec stack (readsOf n) xs anns = bContains rec stack n xs anns := rfl
-theorem bArrayLimits_reads (n : Node) (xs : List GoVal) (cnt : Nat) :
-    bArrayLimits (readsOf n) xs cnt = bArrayLimits n xs cnt := rfl
+theorem bContains_reads (d : Draft) (rec : Go.Rec) (stack : List NodeId) (n : Node) (xs : List GoVal) (anns : Anns) :
+    bContains d rec stack (readsOf n) xs anns = bContains d rec stack n xs anns := rfl
+theorem bArrayLimits_reads (d : Draft) (n : Node) (xs : List GoVal) (cnt : Nat) :
+    bArrayLimits d (readsOf n) xs cnt = bArrayLimits d n xs cnt := rfl
 theorem bUnique_reads (env : VEnv) (n : Node) (xs : List GoVal) : bUnique env (readsOf n) xs = bUnique env n xs := rfl
-theorem bUnevaluatedItems_reads (rec : Go.Rec) (stack : List NodeId) (n : Node) (xs : List GoVal) (anns : Anns) :
-    bUnevaluatedItems rec stack (readsOf n) xs anns = bUnevaluatedItems rec stack n xs anns := rfl
+theorem bUnevaluatedItems_reads (d : Draft) (rec : Go.Rec) (stack : List NodeId) (n : Node) (xs : List GoVal)
+    (anns : Anns) : bUnevaluatedItems d rec stack (readsOf n) xs anns = bUnevaluatedItems d rec stack n xs anns := rfl
 theorem bArray_reads (env : VEnv) (rec : Go.Rec) (stack : List NodeId) (n : Node) (inst : GoVal) (anns : Anns) :
     bArray env rec stack (readsOf n) inst anns = bArray env rec stack n inst anns := rfl
 theorem bProps_reads (env : VEnv) (rec : Go.Rec) (stack : List NodeId) (n : Node) (info : Option Info)
@@ -105,8 +105,9 @@ theorem bObjectLimits_reads (n : Node) (info : Option Info) (kvs : List (String 
 theorem bDependencies_reads (env : VEnv) (rec : Go.Rec) (stack : List NodeId) (n : Node) (inst : GoVal)
     (kvs : List (String × GoVal)) (anns : Anns) :
     bDependencies env rec stack (readsOf n) inst kvs anns = bDependencies env rec stack n inst kvs anns := rfl
-theorem bUnevaluatedProps_reads (rec : Go.Rec) (stack : List NodeId) (n : Node) (kvs : List (String × GoVal))
-    (anns : Anns) : bUnevaluatedProps rec stack (readsOf n) kvs anns = bUnevaluatedProps rec stack n kvs anns := rfl
+theorem bUnevaluatedProps_reads (d : Draft) (rec : Go.Rec) (stack : List NodeId) (n : Node)
+    (kvs : List (String × GoVal)) (anns : Anns) :
+    bUnevaluatedProps d rec stack (readsOf n) kvs anns = bUnevaluatedProps d rec stack n kvs anns := rfl
 theorem bObject_reads (env : VEnv) (rec : Go.Rec) (stack : List NodeId) (n : Node) (info : Option Info) (inst : GoVal)
     (anns : Anns) : bObject env rec stack (readsOf n) info inst anns = bObject env rec stack n info inst anns := rfl
 
